@@ -9,4 +9,11 @@ let () =
   reg "hop.items" (fun [l] -> String.concat "|" (List.map hex_of_bytes (list_items (n_of_int 44) (bytes_of_hex l))));
   reg "hop.member" (fun [l; nm] -> b2s (is_member (bytes_of_hex l) (bytes_of_hex nm)));
   reg "hop.resp" (fun hs -> "kept " ^ idxs (resp_kept (List.map hdr_of hs)));
-  reg "hop.req" (fun (m :: hs) -> "kept " ^ idxs (req_kept (m = "1") (List.map hdr_of hs)))
+  reg "hop.req" (fun (m :: hs) -> "kept " ^ idxs (req_kept (m = "1") (List.map hdr_of hs)));
+  reg "hop.reval" (fun hs ->
+      let rec split acc = function
+        | "/" :: rest -> (List.rev acc, rest)
+        | x :: rest -> split (x :: acc) rest
+        | [] -> (List.rev acc, []) in
+      let (o, f) = split [] hs in
+      "kept " ^ idxs (reval_kept (List.map hdr_of o) (List.map hdr_of f)))
